@@ -551,8 +551,6 @@ func signature(d *Decl, v verdict) string {
 		case v.kind == "rejects:invalidop" && isShift && (goClass(e.Y) == "tf" || goClass(e.Y) == "tc"):
 			// go/types accepts a typed float constant count, the spec and Scriggo do not
 			return "shift-count-typed-float"
-		case v.kind == "accepts:invalidop" && e.K == "bin" && opGroup(e.Op) == "cmp" && (goClass(e.X) == "tc" || goClass(e.Y) == "tc" || goClass(e.X) == "?" || goClass(e.Y) == "?") && hasComplex(e):
-			return "typed-complex-ordered-comparison"
 		}
 		if v.near {
 			return "float-rounding-visible"
@@ -869,6 +867,11 @@ var corpus = []string{
 	"const C = (1<<511 + 0i) * (1<<511 + 0i)",
 	"const C = 1e3i / ((1 << 256) + 1)",
 	"const C = (1<<300 + 1i) * (1<<300 - 1i)",
+	// regressions of fix 01e9b06 (ordered comparison of complex constants was accepted)
+	"const C = complex128(1) < 2",
+	"const C = complex64(1) >= complex64(2)",
+	"const C = 2 < (1+0i)",
+	"const C = complex128(1) == 1",
 }
 
 // oracleDefect recognises the one input class on which go/constant itself is
